@@ -22,6 +22,12 @@ RELEVANCE = {
     'snap:P':     {'C09', 'C14'},
     'snap:L':     {'C09', 'C14'},
     'snap:Q':     {'C02', 'C04', 'C06', 'C11', 'C14'},
+    'snap:RQ':    {'C01', 'C02', 'C04'},
+    'snap:RM':    {'C02', 'C04'},
+    'snap:OB':    {'C01', 'C02', 'C04'},
+    'snap:PX':    {'C06'},
+    'snap:TS':    {'C06'},
+    'snap:TF':    {'C06'},
     'snap:A':     {'C01', 'C02', 'C03', 'C05', 'C08', 'C09', 'C13'},
     'snap:S':     {'C01', 'C02', 'C13'},
     'snap:R':     {'C02', 'C08', 'C09', 'C13'},
